@@ -591,6 +591,17 @@ class App(falcon.app.App):
 
             req_succeeded = False
 
+            # NOTE: Render the response that the error handler composed, so
+            #   that the error is reported with its body rather than with an
+            #   empty one. If that fails as well, the response is left bodiless.
+            try:
+                data = await resp.render_body()
+            except Exception:
+                data = None
+
+            if data is None:
+                data = b''
+
         resp_status: int = resp.status_code
         default_media_type: Optional[str] = self.resp_options.default_media_type
 
